@@ -127,6 +127,38 @@ def explore(g, init, step, unwind=False, start=None):
     return reached, pred
 
 
+def explore_r(g, init, step, **kw):
+    """explore() that also remembers, for inlined helpers returning `Option<taken value>` (see graph._forward_single_returns), which
+    return site the path went through, and prunes the caller's `if let Some(..) = helper()` edges that contradict it"""
+    frames = getattr(g, 'opt_frames', {}) or {}
+    if not frames:
+        return explore(g, init, step, **kw)
+    exprs = {strip(v): k for k, v in frames.items()}
+
+    def wstep(st, n, lab):
+        inner, rmap = st
+        d, v = sw_value(lab)
+        if d is not None and v in (0, 1):
+            dd = strip(d)
+            if dd[0] == 'discr' and strip(dd[1]) in exprs:
+                k = exprs[strip(dd[1])]
+                got = dict(rmap).get(k)
+                if got == 'none' and v == 1:
+                    return None
+                if got == 'some' and v == 0:
+                    return None
+        ns = step(inner, n, lab)
+        if ns is None:
+            return None
+        if n['kind'] == 'assign' and n['lhs'][0] == 'local' and isinstance(n['lhs'][1], tuple) and n['lhs'][1][1] == 0 and n['lhs'][1][0] in frames:
+            r = strip(n['rhs'])
+            val = 'none' if (r[0] == 'agg' and r[2].endswith('Option::None')) else 'some'
+            rmap = tuple(sorted([x for x in rmap if x[0] != n['lhs'][1][0]] + [(n['lhs'][1][0], val)], key=repr))
+        return (ns, rmap)
+    reached, pred = explore(g, (init, ()), wstep, **kw)
+    return reached, pred
+
+
 def witness(g, pred, key, interesting=None, limit=40):
     """reconstruct one path (list of node descriptions) ending at key"""
     path = []
